@@ -96,6 +96,10 @@ Definition outs_of (rows : list Z) (ncalls : nat) : list (option Z) :=
 Fixpoint somes {A} (l : list (option A)) : list A :=
   match l with [] => [] | Some x :: t => x :: somes t | None :: t => somes t end.
 
+(* In the handle-reuse streams of the harness the caller changes, re-binds or releases the *Query
+   (or starts a second iterator from it) after Iter() returned.  The case still carries the
+   configuration the query had at Iter(): by Props.C15_handle_reuse that is what every later page
+   must be requested with, so [check] needs no special treatment for them. *)
 Definition check (c : case) : bool :=
   match c with
   | CIter consumer cfg manual pf ncalls retries script rows tags err reqs state =>
